@@ -446,6 +446,46 @@ impl View for WireSyncPacket {
     open spec fn view(&self) -> WireSyncPacketV { WireSyncPacketV { status: oview(self.status), diff: oview(self.diff), compare: oview(self.compare) } }
 }
 
+/// message WireTrackedUserFolderChange / WireTrackedChanges / WireMergeOutcome
+pub struct WireTrackedUserFolderChange { pub folder_id: Vec<u8>, pub changes: Vec<WireTrackedFolderChange> }
+pub ghost struct WireTrackedUserFolderChangeV { pub folder_id: Seq<u8>, pub changes: Seq<WireTrackedFolderChangeV> }
+impl View for WireTrackedUserFolderChange {
+    type V = WireTrackedUserFolderChangeV;
+    open spec fn view(&self) -> WireTrackedUserFolderChangeV { WireTrackedUserFolderChangeV { folder_id: self.folder_id@, changes: sview(self.changes@) } }
+}
+pub struct WireTrackedChanges {
+    pub identity: Vec<WireTrackedFolderChange>, pub account: Vec<WireTrackedAccountChange>, pub device: Vec<WireTrackedDeviceChange>,
+    pub files: Vec<WireTrackedFileChange>, pub folders: Vec<WireTrackedUserFolderChange>,
+}
+pub ghost struct WireTrackedChangesV {
+    pub identity: Seq<WireTrackedFolderChangeV>, pub account: Seq<WireTrackedAccountChangeV>, pub device: Seq<WireTrackedDeviceChangeV>,
+    pub files: Seq<WireTrackedFileChangeV>, pub folders: Seq<WireTrackedUserFolderChangeV>,
+}
+impl View for WireTrackedChanges {
+    type V = WireTrackedChangesV;
+    open spec fn view(&self) -> WireTrackedChangesV {
+        WireTrackedChangesV { identity: sview(self.identity@), account: sview(self.account@), device: sview(self.device@),
+            files: sview(self.files@), folders: sview(self.folders@) }
+    }
+}
+/// (`tracked` is a Verus keyword: raw identifier, same field)
+pub struct WireMergeOutcome { pub changes: u64, pub r#tracked: Option<WireTrackedChanges> }
+pub ghost struct WireMergeOutcomeV { pub changes: u64, pub r#tracked: Option<WireTrackedChangesV> }
+impl View for WireMergeOutcome {
+    type V = WireMergeOutcomeV;
+    open spec fn view(&self) -> WireMergeOutcomeV { WireMergeOutcomeV { changes: self.changes, r#tracked: oview(self.r#tracked) } }
+}
+// ---- notifications.proto (out/notifications.rs) --------------------------------------------
+/// message WireNetworkChangeEvent
+pub struct WireNetworkChangeEvent { pub account_id: Vec<u8>, pub connection_id: String, pub root: Option<WireCommitHash>, pub outcome: Option<WireMergeOutcome> }
+pub ghost struct WireNetworkChangeEventV { pub account_id: Seq<u8>, pub connection_id: Seq<char>, pub root: Option<Seq<u8>>, pub outcome: Option<WireMergeOutcomeV> }
+impl View for WireNetworkChangeEvent {
+    type V = WireNetworkChangeEventV;
+    open spec fn view(&self) -> WireNetworkChangeEventV {
+        WireNetworkChangeEventV { account_id: self.account_id@, connection_id: self.connection_id@, root: oview(self.root), outcome: oview(self.outcome) }
+    }
+}
+
 /// enum WireEventLogTypeSystem (out/common.rs): the generated enum and its two
 /// name functions, bodies verbatim from the generated file; the `ensures` are
 /// checked against those bodies (not assumed).
@@ -550,10 +590,10 @@ impl vstd::std_specs::convert::FromSpecImpl<UnknownEnumValue> for WireError {
 }
 impl core::convert::From<UnknownEnumValue> for WireError { fn from(e: UnknownEnumValue) -> (r: WireError) { WireError { _p: () } } }
 impl vstd::std_specs::convert::FromSpecImpl<Error> for WireError {
-    open spec fn obeys_from_spec() -> bool { false }
-    open spec fn from_spec(e: Error) -> WireError { arbitrary() }
+    open spec fn obeys_from_spec() -> bool { true }
+    open spec fn from_spec(e: Error) -> WireError { WireError { _p: () } }
 }
-impl core::convert::From<Error> for WireError { #[verifier::external_body] fn from(e: Error) -> (r: WireError) { WireError { _p: () } } }
+impl core::convert::From<Error> for WireError { fn from(e: Error) -> (r: WireError) { WireError { _p: () } } }
 
 /// sos_core::Error (crates/core/src/error.rs) as far as the conversions used by
 /// the bindings need it: opaque, built from TryFromSliceError, converted by
@@ -583,16 +623,30 @@ pub struct FileEvent {}
 /// element-wise `as` casts of a sequence (same length, each element cast)
 pub open spec fn seq_usize_of(s: Seq<u64>) -> Seq<usize> { Seq::new(s.len(), |i: int| s[i] as usize) }
 pub open spec fn seq_u64_of(s: Seq<usize>) -> Seq<u64> { Seq::new(s.len(), |i: int| s[i] as u64) }
-/// `v.into_iter().map(|i| i as usize).collect()`
-#[verifier::external_body]
+/// `v.into_iter().map(|i| i as usize).collect()` (verified, not assumed)
 pub fn vmap_u64_usize(v: Vec<u64>) -> (r: Vec<usize>)
     ensures r@ == seq_usize_of(v@),
-{ v.into_iter().map(|i| i as usize).collect() }
-/// `v.into_iter().map(|i| i as u64).collect()`
-#[verifier::external_body]
+{
+    let mut out: Vec<usize> = Vec::new();
+    for x in it: v
+        invariant it.seq() == v@, out@.len() == it.index@,
+            forall|i: int| 0 <= i < it.index@ ==> out@[i] == v@[i] as usize,
+    { out.push(#[verifier::truncate] (x as usize)); }
+    proof { assert(out@ =~= seq_usize_of(v@)); }
+    out
+}
+/// `v.into_iter().map(|i| i as u64).collect()` (verified, not assumed)
 pub fn vmap_usize_u64(v: Vec<usize>) -> (r: Vec<u64>)
     ensures r@ == seq_u64_of(v@),
-{ v.into_iter().map(|i| i as u64).collect() }
+{
+    let mut out: Vec<u64> = Vec::new();
+    for x in it: v
+        invariant it.seq() == v@, out@.len() == it.index@,
+            forall|i: int| 0 <= i < it.index@ ==> out@[i] == v@[i] as u64,
+    { out.push(x as u64); }
+    proof { assert(out@ =~= seq_u64_of(v@)); }
+    out
+}
 /// `o.map(|x| x.into())` on an Option (verified, not assumed)
 pub fn omap_into<A, B: core::convert::From<A>>(o: Option<A>) -> (r: Option<B>)
     ensures r.is_some() == o.is_some(), o.is_some() ==> call_ensures(B::from, (o.unwrap(),), r.unwrap()),
